@@ -155,6 +155,15 @@ def _work(args):
                     prev = seen_parallel.get(key)
                     if prev is not None:
                         rec["variants"].append(variant("sum", proj((td + prev[1]).eval()), other=prev[0]))
+                        for kind, mk in (("sum_then", lambda s_: s_ >> tensor.Id(td.cod)),
+                                         ("sum_tensor", lambda s_: tensor.Id(Dim(2)) @ s_),
+                                         ("sum_dagger", lambda s_: s_.dagger())):
+                            try:
+                                rec["variants"].append(variant(kind, proj(mk(td + prev[1]).eval()), other=prev[0]))
+                            except core.Machinery:
+                                raise
+                            except Exception as e:
+                                rec["variants"].append(variant(kind, EMPTY, type(e).__name__, other=prev[0]))
                     seen_parallel[key] = ({k2: dabs[k2] for k2 in ("dom", "cod", "boxes", "offs")}, td)
                 except core.Machinery:
                     raise
@@ -261,7 +270,8 @@ def run(tier, seed, t0):
         for t, v in zip(rows, verdicts):
             clauses[v[0]] += 1
             if v[0] != "ok":
-                rejected.append({"clause": v[0], "sig": "at=%s dims=%s %s" % (v[1], t["interp"], describe(t["d"])),
+                vk = t["variants"][v[1] - 1]["kind"] if (v[0].startswith(("variant", "sum-", "bubble-", "spider-", "tensor-diagram", "evaluation-not")) and 0 < v[1] <= len(t["variants"])) else "-"
+                rejected.append({"clause": v[0], "sig": "at=%s variant=%s dims=%s %s" % (v[1], vk, t["interp"], describe(t["d"])),
                                  "obs": {"d": t["d"], "interp": t["interp"]}})
         can = None
         for t, v in zip(rows, verdicts):
